@@ -9,6 +9,7 @@
 //               whether each case body returns
 //   - ctors:    for every constructor (New*), the sequence of top-level statement kinds
 //   - spawners: the same for every other function with a top-level `go` statement
+//   - chanmakes: every make(chan …) of a constructor: (pkg, constructor, target, capacity text)
 //   - ranges:   `for ... range <expr>` loops per function (handler loops)
 //
 // The generated module is checked against hand-written expectations in
@@ -73,7 +74,7 @@ func lbool(b bool) string {
 }
 
 type out struct {
-	spawns, defers, methods, selects, ctors, ranges, spawners []string
+	spawns, defers, methods, selects, ctors, ranges, spawners, chanmakes []string
 }
 
 func recvInfo(fd *ast.FuncDecl) (name string, typ string) {
@@ -259,6 +260,32 @@ func process(repo string, p pkgSpec, o *out) error {
 				}
 			}
 			if isCtor {
+				// every `make(chan T[, cap])` in a constructor, keyed by the struct field or
+				// variable it initialises
+				ast.Inspect(fd.Body, func(n ast.Node) bool {
+					var target string
+					var val ast.Expr
+					switch x := n.(type) {
+					case *ast.KeyValueExpr:
+						target, val = text(x.Key), x.Value
+					case *ast.AssignStmt:
+						if len(x.Lhs) == 1 && len(x.Rhs) == 1 {
+							target, val = text(x.Lhs[0]), x.Rhs[0]
+						}
+					}
+					if call, ok := val.(*ast.CallExpr); ok {
+						if id, ok := call.Fun.(*ast.Ident); ok && id.Name == "make" && len(call.Args) >= 1 {
+							if _, isChan := call.Args[0].(*ast.ChanType); isChan {
+								capText := ""
+								if len(call.Args) >= 2 {
+									capText = text(call.Args[1])
+								}
+								o.chanmakes = append(o.chanmakes, fmt.Sprintf("(%s, %s, %s, %s)", lstr(p.key), lstr(fd.Name.Name), lstr(target), lstr(capText)))
+							}
+						}
+					}
+					return true
+				})
 				o.ctors = append(o.ctors, fmt.Sprintf("(%s, %s, [%s])", lstr(p.key), lstr(fd.Name.Name), strings.Join(kinds, ", ")))
 			} else {
 				o.spawners = append(o.spawners, fmt.Sprintf("(%s, %s, %s, [%s])", lstr(p.key), lstr(rtyp), lstr(fd.Name.Name), strings.Join(kinds, ", ")))
@@ -378,6 +405,7 @@ func main() {
 	b.WriteString(emit("selects", "String × String × String × List (String × Bool)", o.selects))
 	b.WriteString(emit("ctors", "String × String × List (String × String)", o.ctors))
 	b.WriteString(emit("spawners", "String × String × String × List (String × String)", o.spawners))
+	b.WriteString(emit("chanmakes", "String × String × String × String", o.chanmakes))
 	b.WriteString(emit("ranges", "String × String × String × String", o.ranges))
 	b.WriteString("end Cqos.Facts\n")
 
